@@ -62,7 +62,8 @@ def gen_plan(tape, cfg):
     ops = []
     for _ in range(tape.rint(30, 120, "nops")):
         k = tape.weighted([(10, "build"), (2, "illtyped"), (2, "simplify"), (2, "substitute"), (3, "normalize"),
-                           (2, "const"), (2, "eqhash"), (1, "collapse"), (1, "quant_order")], "op")
+                           (2, "const"), (2, "eqhash"), (1, "collapse"), (1, "quant_order"), (1, "normalize_clash"),
+                           (1, "builtin_named_sort")], "op")
         o = {"op": k, "client": tape.draw(nclients, "client"), "env": tape.draw(nenv, "env"),
              "i": tape.draw(len(pool), "formula")}
         if k == "build":
@@ -472,7 +473,8 @@ def execute(plan, tape):
                 if k == "simplify":
                     r = f.simplify()
                 else:
-                    syms = [x for x in richgen.subterms(t) if x[0] == "sym" and not bp.is_fun(x[2]) and not bp.is_array(x[2])]
+                    syms = [x for x in richgen.subterms(t) if x[0] == "sym" and not bp.is_fun(x[2]) and not bp.is_array(x[2])
+                            and not bp.is_usort(x[2])]
                     if not syms:
                         continue
                     s0 = syms[0]
@@ -542,6 +544,62 @@ def execute(plan, tape):
                     if iv is c0 or iv == c0:
                         raise Violation("C04:real-int-confused", "%s: Real(%s) and Int(%s) are one object" % (where, want[1], want[1]))
                 trace.append(("const", kind))
+            elif k == "normalize_clash":
+                # the target environment already holds same-named symbols of ANOTHER type such that
+                # the re-typed formula would still type-check: the copy must be refused or be faithful
+                import pysmt.typing as T
+                if len(envs) < 2:
+                    continue
+                ti = (ei + 1) % len(envs)
+                tmgr = envs[ti].formula_manager
+                na, nb = "clash_a%d_%d" % (ei, ti), "clash_b%d_%d" % (ei, ti)
+                src = mgr.Equals(mgr.Symbol(na, T.INT), mgr.Symbol(nb, T.INT))
+                tmgr.Symbol(na, T.REAL)
+                tmgr.Symbol(nb, T.REAL)
+                try:
+                    cp = tmgr.normalize(src)
+                except PysmtTypeError:
+                    probe("normalize_refused_on_type_clash")
+                    trace.append(("normalize_clash", "refused"))
+                    continue
+                if Canon(user_names=None, ac=False).key(cp) != Canon(user_names=None, ac=False).key(src):
+                    raise Violation("C04:normalize:structure",
+                                    "%s: the target environment holds %s, %s with another type; normalize() returned %s "
+                                    "(symbol types %s) for %s (symbol types %s)" %
+                                    (where, na, nb, _s(cp), [str(a_.symbol_type()) for a_ in cp.args()], _s(src),
+                                     [str(a_.symbol_type()) for a_ in src.args()]))
+                trace.append(("normalize_clash", "copied"))
+            elif k == "builtin_named_sort":
+                # a user sort that is merely *named* like a built-in sort is a different sort
+                import pysmt.typing as T
+                for nm, builtin, const in (("Int", T.INT, lambda: mgr.Int(0)), ("Real", T.REAL, lambda: mgr.Real(0)),
+                                           ("Bool", T.BOOL, lambda: mgr.TRUE())):
+                    S = env.type_manager.Type(nm, 0)
+                    if S == builtin or builtin == S:
+                        raise Violation("C04:sort-identity", "%s: user sort named %s compares equal to the built-in sort" % (where, nm))
+                    a1 = mgr.Array(S, const())
+                    a2 = mgr.Array(builtin, const())
+                    register(ei, a1, o["client"], "sort", step, where)
+                    register(ei, a2, o["client"], "sort", step, where)
+                    if a1 is a2:
+                        raise Violation("C04:one-object-two-structures",
+                                        "%s: constant arrays indexed by the user sort %s and by the built-in sort are one object" % (where, nm))
+                    if a1.array_value_index_type() != S or a2.array_value_index_type() != builtin:
+                        raise Violation("C04:accessor:payload", "%s: array index type misreported for sort %s" % (where, nm))
+                    s1 = mgr.Symbol("bn_%s" % nm, S)
+                    try:
+                        s2 = mgr.Symbol("bn_%s" % nm, builtin)
+                        raise Violation("C04:one-object-two-structures",
+                                        "%s: Symbol(bn_%s) of user sort %s and of the built-in sort were merged (%s)" %
+                                        (where, nm, nm, s2.symbol_type()))
+                    except PysmtTypeError:
+                        pass
+                    ft1 = T.FunctionType(T.BOOL, [S])
+                    ft2 = T.FunctionType(T.BOOL, [builtin])
+                    if ft1 == ft2:
+                        raise Violation("C04:sort-identity", "%s: function types over user sort %s and the built-in sort are equal" % (where, nm))
+                probe("builtin_named_sort")
+                trace.append(("builtin_named_sort",))
             elif k == "quant_order":
                 import pysmt.typing as T
                 body = bp.build(t, env) if bp.sort_of(t) == bp.BOOL else mgr.TRUE()
